@@ -577,6 +577,13 @@ func init() {
 			t[1] = in.tb.BV(64, 63_000_000_000)
 			return t
 		}
+		if in.cfg.Params["symbolic_time"] == 0 {
+			// concrete, strictly increasing instants (1ms apart) unless the harness asks for symbolic time
+			in.p.clock++
+			t[1] = in.tb.BV(64, uint64(63_000_000_000+in.p.clock))
+			t[0] = in.tb.BV(64, 0)
+			return t
+		}
 		sec := in.nondet("time.Now", "i64", 64)
 		lo := in.tb.BV(64, 62_000_000_000)
 		if in.p.lastNow != nil {
